@@ -5,6 +5,11 @@ mod util;
 mod smoke;
 mod codec;
 mod table;
+mod query;
+mod filter;
+mod lru;
+mod snode;
+mod ssim;
 
 fn main() {
     clock::self_test();
@@ -20,6 +25,12 @@ fn main() {
         "C07" => table::run_c07_c08("C07"),
         "C08" => table::run_c07_c08("C08"),
         "C16" => table::run_c16(),
+        "qdebug" => query::debug_one(),
+        "C18" => filter::run(),
+        "C20" => ssim::run_c20(),
+        "C14" => ssim::run_c14(),
+        "C09" => query::run("C09"),
+        "C10" => query::run("C10"),
         "replay" => replay(&args),
         _ => {
             eprintln!("unknown command {cmd}");
